@@ -190,4 +190,79 @@ theorem canonicalize_molecule_total {env : DepEnv} (hs : env.SetLawful) (hb : Bl
   obtain ⟨pg, rg, r, t⟩ := canonicalize_molecule_ok hs hb hm hne hc fuel hf
   exact ⟨r, t.result, t.wf, t.nodes⟩
 
+/-! ## colour-isomorphic graphs have the same canonical form -/
+
+section agree
+variable {env : DepEnv} {m₁ m₂ : Graph} {π : Int → Int}
+
+theorem mem_nbrs_iso_iff {key : String} (h₁ : m₁.WF) (hiso : IsIsoOn key π m₁ m₂) {a b : Int}
+    (ha : a ∈ m₁.nodeList) (hb : b ∈ m₁.nodeList) : π b ∈ m₂.nbrs (π a) ↔ b ∈ m₁.nbrs a := by
+  rw [(hiso.nbrs a ha).mem_iff, List.mem_map]
+  constructor
+  · rintro ⟨y, hy, e⟩
+    rw [← hiso.inj y (h₁.nbr_mem a y hy) b hb e]; exact hy
+  · intro h; exact ⟨b, h, rfl⟩
+
+/-- a `partition`-preserving isomorphism of networkx graphs induces a colour-preserving isomorphism of
+the coloured igraphs handed to bliss -/
+theorem colourIso_of_isIsoOn (h₁ : m₁.WF) (h₂ : m₂.WF) (hiso : IsIsoOn "partition" π m₁ m₂) :
+    ∃ σ, IGraph.ColourIso σ (IGraph.fromNetworkx m₁) (blissColours m₁)
+      (IGraph.fromNetworkx m₂) (blissColours m₂) := by
+  refine ⟨fun i => m₂.nodeList.idxOf (π ((m₁.nodeList[i]?).getD 0)), ?_⟩
+  have hσ : ∀ i (hi : i < m₁.nodeList.length),
+      m₂.nodeList.idxOf (π ((m₁.nodeList[i]?).getD 0)) = m₂.nodeList.idxOf (π m₁.nodeList[i]) := by
+    intro i hi; rw [List.getElem?_eq_getElem hi, Option.getD_some]
+  have hmem : ∀ i (hi : i < m₁.nodeList.length), m₁.nodeList[i] ∈ m₁.nodeList := fun i hi => List.getElem_mem hi
+  have hidx : ∀ i (hi : i < m₁.nodeList.length), m₁.nodeList.idxOf m₁.nodeList[i] = i :=
+    fun i hi => h₁.nodup_nodeList.idxOf_getElem i hi
+  constructor
+  · simp only [IGraph.fromNetworkx_names]; rw [hiso.nodes.length_eq, List.length_map]
+  · intro i hi
+    simp only [IGraph.fromNetworkx_names] at hi ⊢
+    rw [hσ i hi]
+    exact List.idxOf_lt_length_of_mem (hiso.mem_nodeList (hmem i hi))
+  · intro i hi j hj e
+    simp only [IGraph.fromNetworkx_names] at hi hj
+    simp only [hσ i hi, hσ j hj] at e
+    have e' := (List.idxOf_inj (hiso.mem_nodeList (hmem i hi))).1 e
+    have e'' := hiso.inj _ (hmem i hi) _ (hmem j hj) e'
+    exact (h₁.nodup_nodeList.getElem_inj_iff).1 e''
+  · intro i hi
+    simp only [IGraph.fromNetworkx_names] at hi
+    simp only [hσ i hi]
+    unfold blissColours
+    rw [IGraph.vsAttr_idxOf h₂ "partition" (hiso.mem_nodeList (hmem i hi)),
+      IGraph.vsAttr_getElem? h₁ "partition" (List.getElem?_eq_getElem hi), hiso.attr _ (hmem i hi)]
+  · intro i hi j hj
+    simp only [IGraph.fromNetworkx_names] at hi hj
+    simp only [hσ i hi, hσ j hj]
+    rw [IGraph.adj_fromNetworkx h₂]
+    conv_rhs => rw [← hidx i hi, ← hidx j hj]
+    rw [IGraph.adj_fromNetworkx h₁]
+    exact mem_nbrs_iso_iff h₁ hiso (hmem i hi) (hmem j hj)
+
+/-- **Canonical forms agree**: if `m₂` is `m₁` renumbered / reordered by a `partition`-preserving
+isomorphism, then the nodes `a` of `m₁` and `b` of `m₂` found at the same canonical position `k` have the same
+`partition` value, and the nodes at positions `k`, `l` are bonded in `m₂` iff they are in `m₁`. -/
+theorem canonNames_agree (hb : BlissLawful env) (h₁ : m₁.WF) (h₂ : m₂.WF) (hiso : IsIsoOn "partition" π m₁ m₂)
+    {k : Nat} {a b : Int} (ha : (canonNames env m₁)[k]? = some a) (hb' : (canonNames env m₂)[k]? = some b) :
+    Partition.attrV m₂ "partition" b = Partition.attrV m₁ "partition" a ∧
+    ∀ {l : Nat} {a' b' : Int}, (canonNames env m₁)[l]? = some a' → (canonNames env m₂)[l]? = some b' →
+      (b' ∈ m₂.nbrs b ↔ a' ∈ m₁.nbrs a) := by
+  obtain ⟨hcol, hadj⟩ := hb.canonForm_agree (valid_bliss h₁) (valid_bliss h₂)
+    (colourIso_of_isIsoOn h₁ h₂ hiso) ha hb'
+  have ham := (canonMap_of_getElem? hb h₁ ha).1
+  have hbm := (canonMap_of_getElem? hb h₂ hb').1
+  refine ⟨?_, ?_⟩
+  · unfold blissColours at hcol
+    simp only [IGraph.fromNetworkx_names] at hcol
+    rw [IGraph.vsAttr_idxOf h₂ "partition" hbm, IGraph.vsAttr_idxOf h₁ "partition" ham] at hcol
+    exact Option.some.inj hcol
+  · intro l a' b' ha' hb''
+    have := hadj ha' hb''
+    simp only [IGraph.fromNetworkx_names] at this
+    rwa [IGraph.adj_fromNetworkx h₂, IGraph.adj_fromNetworkx h₁] at this
+
+end agree
+
 end Contracts.Canonicalize
